@@ -42,19 +42,24 @@ def run(ctx, intensify=False):
     outs = ctx.pmap(ktz.run_shard, shards)
     res = PropResult()
     dis, zones, merged = [], set(), 0
+    sysp = pairs = simd = 0
     for o in outs:
         dis += o["disagreements"]
         res.violations += o["violations"]
         zones |= set(o["zones"])
         merged += o["merged"]
+        sysp += o.get("system_path", 0)
+        pairs += o.get("pairs", 0)
+        simd += o.get("sim_dates", 0)
         res.samples += o["samples"]
     res.suites.append({"name": "K-tz", "cases": len(cases), "observations": len(cases), "disagreements": dis,
-                       "inconclusive": 0, "distribution": {"zones": len(zones), "cases_with_merged_hours": merged}})
+                       "inconclusive": 0, "distribution": {"zones": len(zones), "cases_with_merged_hours": merged, "through_a_computed_usage_pattern": sysp,
+                                                          "two_zone_systems": pairs, "dated_simulations_of_the_conversion": simd}})
     res.evaluations = len(cases)
     res.distinct_nontrivial = len({(c["zone"], c["start"], len(c["vs"])) for c in cases})
     res.rule = ("hourly series of 4-30 local hours straddling DST/offset transitions of pytz zones (quick: 40 zones incl. "
                 "half-hour, 45-minute and day-skipping ones × ≤4 transitions; thorough: all pytz zones × all transitions "
-                "1950-2037) plus one random date per zone; distinct = (zone, start, length)")
+                "1950-2037) plus one random date per zone; every third case also through a computed usage pattern, with a dated what-if at every UTC hour of the window that recomputes the conversion from the local series cut at the date; two-zone systems; distinct = (zone, start, length)")
     res.oracle_info = {"checks": "total preserved, strictly increasing, no duplicates, placement of existing unambiguous "
                                  "hours vs pytz.localize", "violations": len(res.violations)}
     return res
